@@ -30,7 +30,7 @@ VALID = {
 for a, b in (("-links", "-inum"), ("-uid", "-inum"), ("-gid", "-inum"), ("-mtime", "-inum"), ("-mmin", "-inum"), ("-mindepth", "-maxdepth")):
     VALID[a] = VALID[b]
 NEWER_OK = ["-newer", "-newermm", "-neweram", "-anewer"]
-NEWER_JUNK = ["-newermmx", "-xnewermm", "-newerzz", "-newerm"]
+NEWER_JUNK = ["-newermmx", "-xnewermm", "-newerzz", "-newerm", "--newermm"]
 PRIMS = ["-type", "-xtype", "-size", "-inum", "-links", "-uid", "-mtime", "-mmin", "-maxdepth", "-mindepth", "-regextype", "-printf"] + NEWER_OK
 OPERANDS = ["f", "d", "q", "", "ff", "5", "+5", "-5", "5k", "+5M", "5x", "x5k", "5kk", "+", "99999999999999999999", "18446744073709551615", "x",
             "emacs", "posix-extended", "sed", "bogus", "%p\\n", "%", "a\\", "%%", "ref"]
